@@ -43,6 +43,16 @@ CHECKS = {
     technique='runtime monitoring: real recursive verifier (library + CLI) on seeded mutated trees vs independent match predicate; hash_file hook (skip-set), icontract contracts on path_starts_with/path_inside_dir/find_top_level_manifest',
     text='Seeded trees with consistent Manifest layouts (nesting, split Manifests, five compression formats, duplicate entries, IGNORE look-alikes, symlinks, hidden and special files) get 0..3 mutations from 23 classes; assert_directory_verifies and `gemato verify` run on a random sub-path and last_mtime and must accept exactly when the independent predicate finds no offender. A hook records which files were really hashed, so an unlicensed skip is seen even when contents still match.',
     note='Trusted: vf/model/match.py, vf/model/mtext.py. Zones U1-U4, U10, U11 (entries beneath IGNORE, IGNORE+entry, dangling links, licensed mtime skips, unnormalised paths, entries beneath a file) are unconstrained. Small trees (<= 14 files).'),
+ 'C07': dict(
+    category='exploration', design='3 C07',
+    technique='runtime monitoring: recording fail handler + logging handler on the real keep-going verifier (library and CLI, single and multiple paths) under permuted os.walk orders vs independent offender sets; RLIMIT_NOFILE stress; symlink-loop-next-to-discrepancies cases',
+    text='Trees with 2..12 simultaneous discrepancies are verified with recording handlers of four policies and `gemato verify -k`; reported paths must satisfy required <= reported <= required+optional with no duplicates and none outside the sub-path, every non-ignored directory must be walked, the overall result/exit status must equal "no handler call returned False", also over several path arguments. Stress units lower RLIMIT_NOFILE so per-offender leaks surface; loop units require ManifestSymlinkLoop under lenient handlers.',
+    note='Trusted: vf/model/match.py. The Manifest chain is kept intact and duplicates agree (those are raised directly). Handler return values restricted to True/False/None.'),
+ 'C02': dict(
+    category='exploration', design='3 C02',
+    technique='runtime monitoring: attacker workload (independent writer recomputes Manifests up to level k) against every lookup/verify API of a fresh real loader, with a ChainInvariant monitor re-deriving from disk that each loaded sub-Manifest matches a loaded parent entry',
+    text='For every chain depth (1..3 complete in quick, 1..5 in thorough), tamper kind (file or DIST changed/added/removed), attacker level k and API, the real loader must raise ManifestMismatch naming the first broken link and never return a result; after every call loaded_manifests is checked against the bytes on disk. A variant makes a link unverifiable (only uncomputable hash names, equal sizes): nothing below it may be trusted.',
+    note='Trusted: independent writer/reader, one-shot hashlib. Hash collisions are out of scope. Update mode (which loads unverified by design) is not covered here.'),
 }
 
 def main():
